@@ -37,17 +37,17 @@ class Field:
 
 
 LIN_OPS = ["add", "sub", "neg", "half", "mul2", "mul4", "mul8", "mul16", "mul32"]
-GF255_OPS = LIN_OPS + ["mul_small", "mul", "square", "xsquare2"]
-MONTY_OPS = LIN_OPS + ["mul3", "mul", "square", "xsquare2"]
+GF255_OPS = LIN_OPS + ["mul_small", "mul", "square", "xsquare2", "xsquare0"]
+MONTY_OPS = LIN_OPS + ["mul3", "mul", "square", "xsquare2", "xsquare0"]
 
 FIELDS = [
     Field("gf25519", "crate::backend::GF255::<19>", 4, P25519, "raw", 32, GF255_OPS),
     Field("gf255e", "crate::backend::GF255::<18651>", 4, P255E, "raw", 32, GF255_OPS),
     Field("gf255s", "crate::backend::GF255::<3957>", 4, P255S, "raw", 32, GF255_OPS),
     Field("gfsecp256k1", "crate::backend::GFsecp256k1", 4, PSECP, "raw", 32,
-          LIN_OPS + ["mul3", "mul21", "mul_u16", "mul", "square", "xsquare2"]),
+          LIN_OPS + ["mul3", "mul21", "mul_u16", "mul", "square", "xsquare2", "xsquare0"]),
     Field("gf448", "crate::backend::GF448", 7, P448, "raw", 56,
-          LIN_OPS + ["mul_small", "mul", "square", "xsquare2"]),
+          LIN_OPS + ["mul_small", "mul", "square", "xsquare2", "xsquare0"]),
     Field("gfp256", "crate::backend::GFp256", 4, P256, "monty", 32, MONTY_OPS),
     Field("sc25519", "crate::ed25519::Scalar", 4, L25519, "monty", 32, MONTY_OPS),
     Field("scp256", "crate::p256::Scalar", 4, N256, "monty", 32, MONTY_OPS),
@@ -90,6 +90,7 @@ OPSPEC = {
     "mul21": (1, lambda a, q: (21 * a) % q, "x.mul21()"),
     "square": (1, lambda a, q: (a * a) % q, "x.square()"),
     "xsquare2": (1, lambda a, q: pow(a, 4, q), "x.xsquare(2)"),
+    "xsquare0": (1, lambda a, q: a % q, "x.xsquare(0)"),
     "mul_small": ("k32", lambda a, k, q: (a * k) % q, "x.mul_small(k)"),
     "mul_u16": ("k16", lambda a, k, q: (a * k) % q, "x.mul_u16(k)"),
 }
